@@ -3,4 +3,4 @@ NEXT Next
 CONSTANTS
   Depth = 2
   Shapes = {0, 2, 4, 7}
-INVARIANTS DesignOK EmitVec
+INVARIANTS DesignOK BlocksOK EmitVec
